@@ -17,6 +17,10 @@ signature is "<family>:<code>".
     check_invariants(env, s)           -> problems; physical consistency of a non-terminal state          [C07]
     check_conservation(env, s, a, s2, ts) -> problems; conserved quantities across a non-terminal edge    [C07]
     objective(env, s, ts)              -> float objective of a terminal state, or None if not applicable  [C08]
+    potential(env, s)                  -> float64 potential: on every legal edge reward == potential(s2) -  [C08]
+                                          potential(s) (edge-local telescoping; use it where the objective is a
+                                          *difference* w.r.t. the initial state, e.g. SlidingTilePuzzle); either
+                                          objective or potential (or both) may be defined
     reward_ok_on_invalid ...           (not needed: C08 only follows legal actions)
     check_step(env, s, a, s2, ts)      -> problems; successor/reward/termination vs the rules             [C09]
     check_obs(env, s, obs)             -> problems; observation vs documented function of the state       [C12]
@@ -228,6 +232,8 @@ class ReturnMonitor(RefMonitor):
         super().start(ex)
         self.ret: Dict[int, float] = {}
         self.tol = 1e-4
+        self.has_phi = has(self.ref, "potential")
+        self.has_obj = has(self.ref, "objective")
 
     def on_roots(self, roots: Batch) -> None:
         for nid in roots.ids:
@@ -248,7 +254,20 @@ class ReturnMonitor(RefMonitor):
             base = self.ret.get(int(parents.ids[i]))
             if base is None:
                 continue
+            phi0 = self.ref.potential(self.env, t_index(parents.state, i)) if self.has_phi else None
             for a in np.nonzero(enabled[i])[0]:
+                if self.has_phi:
+                    phi1 = self.ref.potential(self.env, t_index(children.state, (i, int(a))))
+                    ex.count("potential_edges_checked", 1)
+                    want = float(phi1) - float(phi0)
+                    got = float(np.sum(r[i, a]))
+                    if abs(got - want) > self.tol * max(1.0, abs(want)):
+                        ex.violation(f"{self.fam}:reward!=potential-difference",
+                                     f"reward {got:.6f} != potential(s') - potential(s) = {want:.6f}",
+                                     int(parents.ids[i]), int(a))
+                    if not self.has_obj:
+                        ex.count("returns_checked", int(st[i, a] == 2))
+                        continue
                 tot = base + float(np.sum(r[i, a]))
                 cid = int(child_ids[i, a])
                 scale = max(1.0, abs(tot))
